@@ -85,6 +85,41 @@ class _Lin:
         return []
 
 
+class _Site:
+    """One statement adding `value` to the counter (`c += v`, `c = c + v`)."""
+
+    def __init__(self, stmt: ast.stmt, value: ast.expr) -> None:
+        self.stmt = stmt
+        self.value = value
+        self.lineno = stmt.lineno
+        self.col_offset = stmt.col_offset
+
+
+def _shape_names(fi: FuncInfo) -> tuple[str, str]:
+    """The names `days, teams = y.shape` binds."""
+    yp = fi.params[0]
+    for s in func_body(fi):
+        if isinstance(s, ast.Assign) and isinstance(
+                s.targets[0], ast.Tuple) and len(
+                s.targets[0].elts) == 2 and all(
+                isinstance(t, ast.Name) for t in s.targets[0].elts) \
+                and ast.unparse(s.value) == f"{yp}.shape":
+            a, b = s.targets[0].elts
+            return a.id, b.id
+    return "days", "teams"
+
+
+def _added_amount(e: ast.expr | None, acc: str) -> ast.expr | None:
+    """`acc + v` / `v + acc` -> v (v not mentioning acc), else None."""
+    if isinstance(e, ast.BinOp) and isinstance(e.op, ast.Add):
+        for a, b in ((e.left, e.right), (e.right, e.left)):
+            if isinstance(a, ast.Name) and a.id == acc and not any(
+                    isinstance(n, ast.Name) and n.id == acc
+                    for n in ast.walk(b)):
+                return b
+    return None
+
+
 def run(ctx: Ctx) -> None:
     ctx.explanation = (
         "D7.1 the error counter starts at 0, is only ever changed by "
@@ -137,7 +172,7 @@ def run(ctx: Ctx) -> None:
            f"`{acc}` starts at 0" if acc_init == 0 else
            f"`{acc}` starts at {acc_init!r}, not at 0: a feasible plan "
            "would not score 0", construct="counter starts at zero")
-    sites: list[tuple[ast.AugAssign, list[tuple[ast.expr, bool]]]] = []
+    sites: list[tuple[_Site, list[tuple[ast.expr, bool]]]] = []
     others: list[ast.AST] = []
 
     def walk(stmts: list[ast.stmt], path: list[tuple[ast.expr, bool]]) \
@@ -146,14 +181,18 @@ def run(ctx: Ctx) -> None:
             if isinstance(s, ast.AugAssign) and isinstance(
                     s.target, ast.Name) and s.target.id == acc:
                 if isinstance(s.op, ast.Add):
-                    sites.append((s, list(path)))
+                    sites.append((_Site(s, s.value), list(path)))
                 else:
                     others.append(s)
             elif isinstance(s, (ast.Assign, ast.AnnAssign)) and any(
                     isinstance(t, ast.Name) and t.id == acc for t in (
                         s.targets if isinstance(s, ast.Assign)
                         else [s.target])):
-                if repo.const(fi.module, s.value) != 0:
+                amount = _added_amount(s.value, acc)
+                if amount is not None and (isinstance(
+                        s, ast.AnnAssign) or len(s.targets) == 1):
+                    sites.append((_Site(s, amount), list(path)))
+                elif repo.const(fi.module, s.value) != 0:
                     others.append(s)
             elif isinstance(s, ast.If):
                 walk(s.body, path + [(s.test, True)])
@@ -178,10 +217,10 @@ def run(ctx: Ctx) -> None:
         guards = " and ".join(
             ("" if t else "not ") + f"({ast.unparse(p)[:40]})"
             for p, t in path[-2:])
-        ctx.ob("D7.1", fi, s, ok,
-               f"`{ast.unparse(s)}` adds a non-negative amount under "
+        ctx.ob("D7.1", fi, s.stmt, ok,
+               f"`{ast.unparse(s.stmt)}` adds a non-negative amount under "
                f"[{guards}]" if ok else
-               f"`{ast.unparse(s)}` may add a negative amount (guards: "
+               f"`{ast.unparse(s.stmt)}` may add a negative amount (guards: "
                f"{guards})", construct=f"increment {ast.unparse(s.value)}")
     rets = [r for r in ast.walk(fi.node) if isinstance(r, ast.Return)]
     ok_ret = len(rets) == 1 and ast.unparse(rets[0].value) in (
@@ -222,8 +261,9 @@ def run(ctx: Ctx) -> None:
             tg = s.targets[0] if isinstance(s, ast.Assign) else s.target
             if isinstance(tg, ast.Name) and isinstance(
                     s.value, ast.BinOp) and isinstance(
-                    s.value.op, ast.FloorDiv) and "days" in ast.unparse(
-                    s.value.left):
+                    s.value.op, ast.FloorDiv) and _shape_names(fi)[0] in {
+                    n.id for n in ast.walk(s.value.left)
+                    if isinstance(n, ast.Name)}:
                 gpc = tg.id
     missing = [p for p in PARAMS if p not in used]
     ok = not missing and gpc is not None and gpc in used
@@ -234,12 +274,31 @@ def run(ctx: Ctx) -> None:
            + ("" if gpc in used else " and the games-per-pairing count"),
            construct="constraint parameters consumed")
     # byes and the two consistency tests
-    src_sites = [(ast.unparse(s.value), [ast.unparse(p) for p, t in path
-                                         if t]) for s, path in sites]
-    bye = any(v == "1" and any("== 0" in g for g in gs)
-              for v, gs in src_sites)
-    cons = sum(1 for v, gs in src_sites if v == "1" and any(
-        g.startswith("y[day, team_2] !=") for g in gs))
+    ypar = fi.params[0]
+
+    def _is_zero_test(p_: ast.expr, t_: bool) -> bool:
+        """`x == 0` taken / `x != 0` not taken (either operand order)."""
+        if not (isinstance(p_, ast.Compare) and len(p_.ops) == 1):
+            return False
+        sides = (p_.left, p_.comparators[0])
+        if not any(repo.const(fi.module, x) == 0 and not isinstance(
+                repo.const(fi.module, x), bool) for x in sides):
+            return False
+        return isinstance(p_.ops[0], ast.Eq if t_ else ast.NotEq)
+
+    def _is_mirror_test(p_: ast.expr, t_: bool) -> bool:
+        """`y[d, o] != id` taken / `y[d, o] == id` not taken."""
+        if not (isinstance(p_, ast.Compare) and len(p_.ops) == 1
+                and isinstance(p_.ops[0], ast.NotEq if t_ else ast.Eq)):
+            return False
+        return any(isinstance(x, ast.Subscript) and ast.unparse(
+            x.value) == ypar and isinstance(x.slice, ast.Tuple)
+            for x in (p_.left, p_.comparators[0]))
+    bye = any(repo.const(fi.module, s_.value) == 1 and any(
+        _is_zero_test(p_, t_) for p_, t_ in path) for s_, path in sites)
+    cons = sum(1 for s_, path in sites
+               if repo.const(fi.module, s_.value) == 1
+               and any(_is_mirror_test(p_, t_) for p_, t_ in path))
     ctx.ob("D7.3", fi, fi.node, bye and cons == 2,
            "a bye counts one error; both opponent-consistency tests "
            "(home side and away side) count one error each" if bye and
@@ -277,12 +336,14 @@ def _step_agreement(ctx: Ctx, fi: FuncInfo) -> None:
     t1n = outer.target.id if isinstance(outer.target, ast.Name) else None
     ctx.need(t1n is not None, "count_errors: team loop variable")
     # ---- loop structure: all teams, the column of that team, days ascending
-    ok_outer = ast.unparse(outer.iter).replace(" ", "") == "range(teams)" \
-        and any(isinstance(s, ast.Assign) and isinstance(
-            s.targets[0], ast.Tuple) and [
-            t.id for t in s.targets[0].elts if isinstance(t, ast.Name)] == [
-            "days", "teams"] and ast.unparse(s.value) == f"{yp}.shape"
-            for s in body)
+    shp = next((s for s in body if isinstance(s, ast.Assign) and isinstance(
+        s.targets[0], ast.Tuple) and len(s.targets[0].elts) == 2 and all(
+        isinstance(t, ast.Name) for t in s.targets[0].elts)
+        and ast.unparse(s.value) == f"{yp}.shape"), None)
+    days_n, teams_n = (t.id for t in shp.targets[0].elts) if shp is not \
+        None else ("days", "teams")
+    ok_outer = shp is not None and ast.unparse(outer.iter).replace(
+        " ", "") == f"range({teams_n})"
     col = None
     for s in outer.body:
         if isinstance(s, (ast.Assign, ast.AnnAssign)) and s.value is not None \
@@ -291,9 +352,12 @@ def _step_agreement(ctx: Ctx, fi: FuncInfo) -> None:
             tg = s.targets[0] if isinstance(s, ast.Assign) else s.target
             col = tg.id if isinstance(tg, ast.Name) else None
     it = inner.iter
-    ok_inner = col is not None and isinstance(it, ast.Call) and ast.unparse(
-        it.func) == "enumerate" and len(it.args) == 1 and ast.unparse(
-        it.args[0]) == col and isinstance(inner.target, ast.Tuple) and len(
+    col_src = f"{yp}[:,{t1n}]"
+    ok_inner = isinstance(it, ast.Call) and ast.unparse(
+        it.func) == "enumerate" and len(it.args) == 1 and not it.keywords \
+        and (ast.unparse(it.args[0]).replace(" ", "") == col_src or (
+            col is not None and ast.unparse(it.args[0]) == col)) \
+        and isinstance(inner.target, ast.Tuple) and len(
         inner.target.elts) == 2 and all(
         isinstance(t, ast.Name) for t in inner.target.elts)
     ctx.ob("D7.4", fi, outer, ok_outer and ok_inner,
@@ -311,9 +375,12 @@ def _step_agreement(ctx: Ctx, fi: FuncInfo) -> None:
         base.vars[a] = ("array", a)
     for p_ in fi.params:
         base.vars.setdefault(p_, Poly.var(p_))
-    base.vars["errors"] = Poly.var("E")
-    base.vars["days"] = Poly.var("days")
-    base.vars["teams"] = Poly.var("teams")
+    acc_n = next((n.id for r in ast.walk(fi.node) if isinstance(r, ast.Return)
+                  and r.value is not None for n in ast.walk(r.value)
+                  if isinstance(n, ast.Name) and n.id != "int"), "errors")
+    base.vars[acc_n] = Poly.var("E")
+    base.vars[days_n] = Poly.var("days")
+    base.vars[teams_n] = Poly.var("teams")
     base.vars[t1n] = Poly.var("t1")
     base_keys = set(base.vars)
     try:
@@ -333,10 +400,52 @@ def _step_agreement(ctx: Ctx, fi: FuncInfo) -> None:
         return
     flags = [k for k, v in pre.vars.items() if v in (("true",), ("false",))
              and k not in base_keys]
-    hflag = next((f for f in flags if "home" in f), None)
-    aflag = next((f for f in flags if "away" in f), None)
-    hlen = next((k for k in pre.vars if "home" in k and "len" in k), None)
-    alen = next((k for k in pre.vars if "away" in k and "len" in k), None)
+    dayn, entn = (t.id for t in inner.target.elts)
+    hflag = aflag = hlen = alen = None
+    # roles by behaviour: a home game (entry > 0) played outside any streak
+    # raises the home flag and sets the home streak length to 1
+    lens = [k for k, v in pre.vars.items() if k not in base_keys
+            and k not in flags and isinstance(v, Poly)
+            and v.const_value() is not None]
+    if len(flags) == 2 and len(lens) >= 2:
+        try:
+            probe = pre.copy()
+            for f in flags:
+                probe.vars[f] = ("false",)
+            for k in lens:
+                probe.vars[k] = Poly.var("L$" + k)
+            probe.vars[dayn] = Poly.var("day")
+            probe.vars[entn] = Poly.var("T")
+            pout = ev.block(probe, inner.body)
+            sp0 = Splitter()
+            for sign, role in ((1, "h"), (-1, "a")):
+                kf = sp0.facts_of(("lt", Poly.const(0), Poly.var("T").scale(
+                    sign)), True)[0]
+                up = [f for f in flags if sp0.decide(pout.vars[f], kf)
+                      is True] if all(
+                    isinstance(pout.vars[f], tuple) for f in flags) else []
+                ones = []
+                for k in lens:
+                    try:
+                        r = sp0.resolve(pout.vars[k], kf)
+                    except Unsupported:
+                        continue
+                    if isinstance(r, Poly) and r.const_value() == 1:
+                        ones.append(k)
+                if len(up) == 1 and len(ones) == 1:
+                    if role == "h":
+                        hflag, hlen = up[0], ones[0]
+                    else:
+                        aflag, alen = up[0], ones[0]
+        except Unsupported:
+            pass
+    if None in (hflag, aflag, hlen, alen) or hflag == aflag or hlen == alen:
+        hflag = next((f for f in flags if "home" in f), None)
+        aflag = next((f for f in flags if "away" in f), None)
+        hlen = next((k for k in pre.vars if "home" in k and "len" in k),
+                    None)
+        alen = next((k for k in pre.vars if "away" in k and "len" in k),
+                    None)
     ok_init = hflag is not None and aflag is not None and hlen is not None \
         and alen is not None and pre.vars[hflag] == ("false",) and \
         pre.vars[aflag] == ("false",)
@@ -354,8 +463,8 @@ def _step_agreement(ctx: Ctx, fi: FuncInfo) -> None:
     hl, al = Poly.var("hl"), Poly.var("al")
     P = {p_: Poly.var(p_) for p_ in PARAMS}
     one, zero = Poly.const(1), Poly.const(0)
-    tid = pre.vars.get("team_1_id")
-    ok_tid = isinstance(tid, Poly) and tid == t1 + one
+    ok_tid = any(isinstance(v, Poly) and v == t1 + one
+                 for k, v in pre.vars.items() if k not in base_keys)
     ctx.ob("D7.4", fi, outer, ok_tid,
            "team ids are column index + 1" if ok_tid else
            "the id a team is known by in the plan is not its column index "
@@ -389,7 +498,7 @@ def _step_agreement(ctx: Ctx, fi: FuncInfo) -> None:
         except Unsupported as u:
             problems.append(f"[{sname}] cannot normalise the step: {u}")
             continue
-        got_E = out.vars.get("errors")
+        got_E = out.vars.get(acc_n)
         got = {"H": out.vars.get(hflag), "A": out.vars.get(aflag),
                "hl": out.vars.get(hlen), "al": out.vars.get(alen)}
         # ---------------- reference (documented rules 1-8), per input kind
@@ -502,7 +611,7 @@ def _step_agreement(ctx: Ctx, fi: FuncInfo) -> None:
         env.vars[aflag] = ("true",) if af else ("false",)
         env.vars[hlen] = hl
         env.vars[alen] = al
-        env.vars["errors"] = E
+        env.vars[acc_n] = E
         try:
             out = ev.block(env, tail) if tail else env
         except Unsupported as u:
@@ -511,7 +620,7 @@ def _step_agreement(ctx: Ctx, fi: FuncInfo) -> None:
         ref = E + (short(hl, P["home_streak_min"]) if hf else zero) + (
             short(al, P["away_streak_min"]) if af else zero)
         sp = Splitter()
-        for facts, (g, r), trail in sp.cases((out.vars.get("errors"), ref),
+        for facts, (g, r), trail in sp.cases((out.vars.get(acc_n), ref),
                                              sp.facts_of(("le", one, hl),
                                                          True)[0]
                                              + sp.facts_of(("le", one, al),
@@ -566,10 +675,15 @@ def _final_agreement(ctx: Ctx, fi: FuncInfo) -> None:
     ctx.need(len(loops) >= 2, "count_errors: pairing summation loop")
     lp = loops[-1]
     inner = next((s for s in lp.body if isinstance(s, ast.For)), None)
+    shp0 = next((s for s in body if isinstance(s, ast.Assign) and isinstance(
+        s.targets[0], ast.Tuple) and len(s.targets[0].elts) == 2
+        and ast.unparse(s.value) == f"{fi.params[0]}.shape"), None)
+    teams0 = ast.unparse(shp0.targets[0].elts[1]) if shp0 is not None \
+        else "teams"
     ok_nest = inner is not None and isinstance(
         lp.target, ast.Name) and isinstance(
         inner.target, ast.Name) and ast.unparse(lp.iter).replace(
-        " ", "") == "range(teams)" and ast.unparse(inner.iter).replace(
+        " ", "") == f"range({teams0})" and ast.unparse(inner.iter).replace(
         " ", "") == f"range({lp.target.id})" and len(lp.body) == 1
     ctx.ob("D7.4", fi, lp, ok_nest,
            "the pairing counts are summed over every unordered pair j < i "
@@ -582,8 +696,17 @@ def _final_agreement(ctx: Ctx, fi: FuncInfo) -> None:
     env = Env()
     env.vars["temp_2"] = ("array", "temp_2")
     E, i, j = Poly.var("E"), Poly.var("i"), Poly.var("j")
-    env.vars.update({"errors": E, lp.target.id: i, inner.target.id: j,
-                     "days": Poly.var("days"), "teams": Poly.var("teams")})
+    acc_n = next((n.id for r in ast.walk(fi.node) if isinstance(r, ast.Return)
+                  and r.value is not None for n in ast.walk(r.value)
+                  if isinstance(n, ast.Name) and n.id != "int"), "errors")
+    yp_ = fi.params[0]
+    shp = next((s for s in body if isinstance(s, ast.Assign) and isinstance(
+        s.targets[0], ast.Tuple) and len(s.targets[0].elts) == 2
+        and ast.unparse(s.value) == f"{yp_}.shape"), None)
+    days_n, teams_n = (t.id for t in shp.targets[0].elts) if shp is not \
+        None else ("days", "teams")
+    env.vars.update({acc_n: E, lp.target.id: i, inner.target.id: j,
+                     days_n: Poly.var("days"), teams_n: Poly.var("teams")})
     try:
         for s in body:
             if s is lp:
@@ -592,17 +715,17 @@ def _final_agreement(ctx: Ctx, fi: FuncInfo) -> None:
                     s.targets[0] if isinstance(s, ast.Assign) else s.target,
                     ast.Name) and (s.targets[0] if isinstance(
                         s, ast.Assign) else s.target).id not in (
-                    "errors",) and not any(
+                    acc_n, days_n, teams_n) and not any(
                     isinstance(x, ast.Attribute) for x in ast.walk(s.value)):
                 env = ev.stmt(env, s)
-        env.vars["errors"] = E
+        env.vars[acc_n] = E
         out = ev.block(env, inner.body)
     except Unsupported as u:
         ctx.ob("D7.4", fi, u.node or lp, False,
                f"cannot normalise the pairing summation: {u}",
                construct="pairing summation vs rules 9/10")
         return
-    got = out.vars.get("errors")
+    got = out.vars.get(acc_n)
 
     def cell(a: Poly, b: Poly) -> Poly:
         return Poly.atom(("cell", "temp_2", (a, b)))
